@@ -36,6 +36,8 @@ type Ctx struct {
 	yieldFn    func(site int)
 	blockedFn  func()
 	tempSeq    int
+	nowTicks   int64
+	randState  uint64
 	mapOrderFn func(site, n int) []int
 	disk       *SimDisk
 }
@@ -216,6 +218,18 @@ func installHooks(c *Ctx) {
 			}
 			return c.disk.Stat(name)
 		},
+		Now: func() time.Time {
+			simEnter()
+			defer simLeave()
+			c.nowTicks++ // every reading of the clock is later than the previous one
+			return time.Unix(1_700_000_000, c.VirtualNs+c.nowTicks*1000).UTC()
+		},
+		Rand: func() uint64 {
+			simEnter()
+			defer simLeave()
+			c.randState = splitmix(c.randState + 0x9E3779B97F4A7C15)
+			return c.randState
+		},
 		TempName: func(dir, pattern string) string {
 			simEnter()
 			defer simLeave()
@@ -271,12 +285,36 @@ func uninstallHooks() {
 // ---------------------------------------------------------------- package state
 
 type savedVar struct {
-	name string
-	ptr  reflect.Value
-	val  reflect.Value
+	name    string
+	ptr     reflect.Value // pointer to the package-level variable
+	val     reflect.Value // deep copy of its value
+	pointee reflect.Value // for pointer-typed variables: copy of what the pointer points to
 }
 
 var pristine []savedVar
+
+// snapVar / restoreVar save and restore one package-level variable.  Maps and slices are
+// deep-copied; for a pointer-typed variable (e.g. *atomic.Value) the pointer keeps its identity
+// and the CONTENT it points to is saved and written back, because the package holds the pointer.
+func snapVar(name string, pv reflect.Value) savedVar {
+	sv := savedVar{name: name, ptr: pv}
+	cp := reflect.New(pv.Elem().Type()).Elem()
+	cp.Set(deepCopyValue(pv.Elem()))
+	sv.val = cp
+	if v := pv.Elem(); v.Kind() == reflect.Ptr && !v.IsNil() {
+		pc := reflect.New(v.Elem().Type()).Elem()
+		pc.Set(deepCopyValue(v.Elem()))
+		sv.pointee = pc
+	}
+	return sv
+}
+
+func restoreVar(sv savedVar) {
+	sv.ptr.Elem().Set(deepCopyValue(sv.val))
+	if sv.pointee.IsValid() {
+		sv.ptr.Elem().Elem().Set(deepCopyValue(sv.pointee))
+	}
+}
 
 // capturePristine snapshots every package-level variable of mxj through the
 // generated VerifGlobals(); resetPackageState writes the snapshot back before
@@ -293,9 +331,7 @@ func capturePristine() {
 		if pv.Kind() != reflect.Ptr || n == "VerifSites" {
 			continue
 		}
-		cp := reflect.New(pv.Elem().Type()).Elem()
-		cp.Set(deepCopyValue(pv.Elem()))
-		pristine = append(pristine, savedVar{n, pv, cp})
+		pristine = append(pristine, snapVar(n, pv))
 	}
 }
 
@@ -334,7 +370,7 @@ func resetPackageState() {
 	// sync.* variables are reset too (to their unused, start-of-process value): data
 	// initialised under a sync.Once must not be reset while the Once stays "done"
 	for _, s := range pristine {
-		s.ptr.Elem().Set(deepCopyValue(s.val))
+		restoreVar(s)
 	}
 	verifsim.ResetSync()
 }
